@@ -50,12 +50,13 @@ theorem doLookup_inv (pp : Path) (n : Name) : Triple INV (doLookup pp n) (fun _ 
 theorem upperReal_ok {m : MNode} {r : Real} (hm : MOK I m) (h : m.upperReal = some r) :
     I.φ r ∧ r.inUpper = true := by
   unfold MNode.upperReal at h
-  split at h
-  · rename_i r' rest hr
+  cases hr : m.reals with
+  | nil => simp [hr] at h
+  | cons r' rest =>
+    simp only [hr] at h
     split at h
-    · cases h; exact ⟨hm r' (by simp [hr]), ‹_›⟩
+    · cases h; exact ⟨hm _ (by simp [hr]), ‹_›⟩
     · cases h
-  · cases h
 
 theorem getUpperReal_inv (p : Path) :
     Triple INV (getUpperReal p) (fun r s => (I.φ r ∧ r.inUpper = true) ∧ INV s) INV := by
@@ -70,14 +71,17 @@ theorem addUpperInode_inv (p : Path) (ri : Real) (b : Bool) (hri : I.φ ri) (hu 
     Triple INV (addUpperInode p ri b) (fun _ s => UpAt p s ∧ INV s) INV := by
   unfold addUpperInode
   refine Triple.bind (getNode_inv' p) fun m => Triple.pure_pre fun hm => ?_
-  refine Triple.modifySt' fun s hs => ⟨⟨_, by simp [Mem.set], ?_⟩, hs.mem_set ?_⟩
-  · cases b <;> simp [MNode.inUpper, hu]
-  · intro r hr
+  unfold setNode
+  have hok : MOK I { m with whiteout := ri.whiteout, reals := if b then [ri] else ri :: m.reals } := by
+    intro r hr
     cases b <;> simp at hr
     · rcases hr with hr | hr
       · subst hr; exact hri
       · exact hm r hr
     · subst hr; exact hri
+  refine Triple.modifySt' fun s hs => ⟨⟨{ m with whiteout := ri.whiteout, reals := if b then [ri] else ri :: m.reals }, ?_, ?_⟩, hs.mem_set hok⟩
+  · simp [Mem.set]
+  · cases b <;> simp [MNode.inUpper, hu]
 
 theorem createUpperDir_inv : ∀ p : Path,
     Triple INV (createUpperDir p) (fun _ s => UpAt p s ∧ INV s) INV
@@ -326,19 +330,20 @@ theorem firstReal_inv (p : Path) :
 /-- with the node known to be in the upper layer, its first real inode is an upper one -/
 theorem firstReal_up (p : Path) :
     Triple (fun s => UpAt p s ∧ INV s) (firstReal p) (fun r s => (I.φ r ∧ r.inUpper = true) ∧ INV s) INV := by
-  intro s hs
-  obtain ⟨⟨m, hm, hu⟩, hinv⟩ := hs
-  refine ⟨fun a s' h => ?_, fun e s' h => ?_⟩ <;> unfold firstReal at h <;>
-    simp only [bind, M.bind, getNode, hm] at h
-  · split at h
-    · rename_i r rest hr
-      cases h
-      refine ⟨⟨hinv.1 p m hm r (by simp [hr]), ?_⟩, hinv⟩
-      simpa [MNode.inUpper, hr] using hu
-    · cases h
-  · split at h
-    · cases h
-    · cases h; exact hinv
+  unfold firstReal
+  refine Triple.bind (Q := fun m s => (MOK I m ∧ m.inUpper = true) ∧ INV s) ?_ fun m => Triple.pure_pre fun hm => ?_
+  · intro s hs
+    obtain ⟨⟨m, hm, hu⟩, hinv⟩ := hs
+    refine ⟨fun a s' h => ?_, fun e s' h => ?_⟩
+    · simp [getNode, hm] at h
+      obtain ⟨rfl, rfl⟩ := h
+      exact ⟨⟨hinv.1 p _ hm, hu⟩, hinv⟩
+    · simp [getNode, hm] at h
+  · cases hr : m.reals with
+    | nil => exact Triple.fail' fun _ h => h
+    | cons r rest =>
+      refine Triple.pure' fun _ h => ⟨⟨hm.1 r (by simp [hr]), ?_⟩, h⟩
+      simpa [MNode.inUpper, hr] using hm.2
 
 theorem doOpen_inv (p : Path) (write trunc : Bool) :
     Triple INV (doOpen p write trunc)
@@ -455,5 +460,269 @@ theorem walkFrom_inv : ∀ (fuel : Nat) (p : Path), Triple INV (walkFrom fuel p)
         exact walkFrom_inv fuel (n :: p)
       · exact Triple.pure' fun _ h => h
     · exact Triple.pure' fun _ h => h
+
+theorem Triple.false_pre {α : Type} {f : M α} {Q : α → St → Prop} {E : St → Prop} :
+    Triple (fun _ => False) f Q E := fun _ h => h.elim
+
+/-- the outcome state of a triple whose two postconditions agree -/
+theorem Triple.st {α : Type} {P R : St → Prop} {f : M α} (h : Triple P f (fun _ => R) R) {s : St}
+    (hs : P s) : R (f s).st := by
+  have h1 := h s hs
+  cases hfs : f s with
+  | ok a s' => exact h1.1 a s' hfs
+  | err e s' => exact h1.2 e s' hfs
+
+/-- a file-kind guard: `match st.kind with | .d => fail .. | .l => fail .. | .o => fail .. | .f => body` -/
+theorem kindGuard_inv {α : Type} (k : Kind) (e1 e2 e3 : Nat) (body : M α)
+    (hb : Triple INV body (fun _ => INV) INV) :
+    Triple INV (match k with | .d => fail e1 | .l => fail e2 | .o => fail e3 | .f => body) (fun _ => INV) INV := by
+  cases k
+  · exact Triple.fail' fun _ h => h
+  · exact hb
+  · exact Triple.fail' fun _ h => h
+  · exact Triple.fail' fun _ h => h
+
+theorem runOp_inv (op : Op) : Triple INV (runOp op) (fun _ => INV) INV := by
+  cases op with
+  | lookup p =>
+    unfold runOp
+    refine Triple.bind (resolve_inv p) fun r => ?_
+    exact Triple.pure' fun _ h => h
+  | readdir p =>
+    unfold runOp
+    refine Triple.bind (resolve_inv p) fun r => ?_
+    obtain ⟨path, st⟩ := r
+    refine Triple.ite' (fun _ => Triple.fail' fun _ h => h) fun _ => ?_
+    refine Triple.bind (listDir_inv path) fun _ => ?_
+    exact Triple.pure' fun _ h => h
+  | create p mode =>
+    unfold runOp
+    refine Triple.bind (resolveParent_inv p) fun r => ?_
+    obtain ⟨pp, n⟩ := r
+    refine Triple.bind (lookupSelf_inv' pp) fun _ => Triple.pure_pre fun _ => ?_
+    refine Triple.bind freshId_inv fun id => ?_
+    refine Triple.bind (doCreateLike_inv pp n false _ (mkChildOf_ok _ _ _)) fun _ => ?_
+    refine Triple.bind (doLookup_inv pp n) fun _ => ?_
+    exact Triple.pure' fun _ h => h
+  | mkdir p mode =>
+    unfold runOp
+    refine Triple.bind (resolveParent_inv p) fun r => ?_
+    obtain ⟨pp, n⟩ := r
+    refine Triple.bind (lookupSelf_inv' pp) fun _ => Triple.pure_pre fun _ => ?_
+    refine Triple.bind (doCreateLike_inv pp n true _ (mkChildOf_ok _ _ _)) fun _ => ?_
+    refine Triple.bind (doLookup_inv pp n) fun _ => ?_
+    exact Triple.pure' fun _ h => h
+  | mknod p mode =>
+    unfold runOp
+    refine Triple.bind (resolveParent_inv p) fun r => ?_
+    obtain ⟨pp, n⟩ := r
+    refine Triple.bind (lookupSelf_inv' pp) fun _ => Triple.pure_pre fun _ => ?_
+    refine Triple.bind freshId_inv fun id => ?_
+    refine Triple.bind (doCreateLike_inv pp n false _ (mkChildOf_ok _ _ _)) fun _ => ?_
+    refine Triple.bind (doLookup_inv pp n) fun _ => ?_
+    exact Triple.pure' fun _ h => h
+  | symlink p t =>
+    unfold runOp
+    refine Triple.bind (resolveParent_inv p) fun r => ?_
+    obtain ⟨pp, n⟩ := r
+    refine Triple.bind (lookupSelf_inv' pp) fun _ => Triple.pure_pre fun _ => ?_
+    refine Triple.bind (doCreateLike_inv pp n false _ (mkChildOf_ok _ _ _)) fun _ => ?_
+    refine Triple.bind (doLookup_inv pp n) fun _ => ?_
+    exact Triple.pure' fun _ h => h
+  | link src dst =>
+    unfold runOp
+    refine Triple.bind (resolve_inv src) fun r => ?_
+    obtain ⟨sp, st⟩ := r
+    refine Triple.ite' (fun _ => Triple.fail' fun _ h => h) fun _ => ?_
+    refine Triple.bind (resolveParent_inv dst) fun r => ?_
+    obtain ⟨pp, n⟩ := r
+    refine Triple.bind (lookupSelf_inv' sp) fun sm => Triple.pure_pre fun _ => ?_
+    refine Triple.ite' (fun _ => Triple.fail' fun _ h => h) fun _ => ?_
+    refine Triple.bind (lookupSelf_inv' pp) fun pm => Triple.pure_pre fun _ => ?_
+    refine Triple.ite' (fun _ => Triple.fail' fun _ h => h) fun _ => ?_
+    refine Triple.bind (doLink_inv sp pp n) fun _ => ?_
+    refine Triple.bind (doLookup_inv pp n) fun _ => ?_
+    exact Triple.pure' fun _ h => h
+  | unlink p =>
+    unfold runOp
+    refine Triple.bind (resolveParent_inv p) fun r => ?_
+    obtain ⟨pp, n⟩ := r
+    refine Triple.bind (doLookup_inv pp n) fun st => ?_
+    refine Triple.ite' (fun _ => Triple.fail' fun _ h => h) fun _ => ?_
+    refine Triple.bind (doRm_inv pp n false) fun _ => ?_
+    exact Triple.pure' fun _ h => h
+  | rmdir p =>
+    unfold runOp
+    refine Triple.bind (resolveParent_inv p) fun r => ?_
+    obtain ⟨pp, n⟩ := r
+    refine Triple.bind (doLookup_inv pp n) fun st => ?_
+    refine Triple.ite' (fun _ => Triple.fail' fun _ h => h) fun _ => ?_
+    refine Triple.bind (doRm_inv pp n true) fun _ => ?_
+    exact Triple.pure' fun _ h => h
+  | «open» p fl =>
+    unfold runOp
+    refine Triple.bind (resolve_inv p) fun r => ?_
+    obtain ⟨path, st⟩ := r
+    refine kindGuard_inv _ _ _ _ _ ?_
+    refine Triple.bind (doOpen_inv path _ _) fun _ => ?_
+    exact Triple.pure' fun _ h => h.2
+  | write p fl off data =>
+    unfold runOp
+    refine Triple.bind (resolve_inv p) fun r => ?_
+    obtain ⟨path, st⟩ := r
+    refine kindGuard_inv _ _ _ _ _ ?_
+    refine Triple.bind (doWrite_inv path _ _ off data) fun _ => ?_
+    exact Triple.pure' fun _ h => h
+  | read p =>
+    unfold runOp
+    refine Triple.bind (resolve_inv p) fun r => ?_
+    obtain ⟨path, st⟩ := r
+    refine kindGuard_inv _ _ _ _ _ ?_
+    refine Triple.bind (doOpen_inv path false false) fun r => ?_
+    refine Triple.bind (Q := fun _ => INV) (Triple.getSt' fun _ h => h.2) fun s0 => ?_
+    split
+    · exact Triple.pure' fun _ h => h
+    · exact Triple.fail' fun _ h => h
+  | readlink p =>
+    unfold runOp
+    refine Triple.bind (resolve_inv p) fun r => ?_
+    obtain ⟨path, st⟩ := r
+    refine Triple.ite' (fun _ => Triple.fail' fun _ h => h) fun _ => ?_
+    refine Triple.bind (lookupSelf_inv' path) fun m => Triple.pure_pre fun _ => ?_
+    refine Triple.ite' (fun _ => Triple.fail' fun _ h => h) fun _ => ?_
+    refine Triple.bind (firstReal_inv path) fun r => Triple.pure_pre fun _ => ?_
+    refine Triple.bind (Q := fun _ => INV) (Triple.getSt' fun _ h => h) fun s0 => ?_
+    split
+    · exact Triple.pure' fun _ h => h
+    · exact Triple.fail' fun _ h => h
+  | chmod p mode =>
+    unfold runOp
+    refine Triple.bind (resolve_inv p) fun r => ?_
+    obtain ⟨path, st⟩ := r
+    refine Triple.ite' (fun _ => Triple.fail' fun _ h => h) fun _ => ?_
+    refine Triple.bind (doSetattr_inv path _) fun _ => ?_
+    exact Triple.pure' fun _ h => h
+  | truncate p n =>
+    unfold runOp
+    refine Triple.bind (resolve_inv p) fun r => ?_
+    obtain ⟨path, st⟩ := r
+    refine kindGuard_inv _ _ _ _ _ ?_
+    refine Triple.bind (doSetattr_inv path _) fun _ => ?_
+    exact Triple.pure' fun _ h => h
+  | setx p v =>
+    unfold runOp
+    refine Triple.bind (resolve_inv p) fun r => ?_
+    obtain ⟨path, st⟩ := r
+    refine Triple.ite' (fun _ => Triple.fail' fun _ h => h) fun _ => ?_
+    refine Triple.bind (doXattr_inv path _ _) fun _ => ?_
+    exact Triple.pure' fun _ h => h
+  | rmx p =>
+    unfold runOp
+    refine Triple.bind (resolve_inv p) fun r => ?_
+    obtain ⟨path, st⟩ := r
+    refine Triple.ite' (fun _ => Triple.fail' fun _ h => h) fun _ => ?_
+    refine Triple.bind (doXattr_inv path _ _) fun _ => ?_
+    exact Triple.pure' fun _ h => h
+  | getx p =>
+    unfold runOp
+    refine Triple.bind (resolve_inv p) fun r => ?_
+    obtain ⟨path, st⟩ := r
+    refine Triple.ite' (fun _ => Triple.fail' fun _ h => h) fun _ => ?_
+    refine Triple.bind (lookupSelf_inv' path) fun m => Triple.pure_pre fun _ => ?_
+    refine Triple.ite' (fun _ => Triple.fail' fun _ h => h) fun _ => ?_
+    refine Triple.bind (firstReal_inv path) fun r => Triple.pure_pre fun _ => ?_
+    refine Triple.bind (Q := fun _ => INV) (Triple.getSt' fun _ h => h) fun s0 => ?_
+    exact Triple.pure' fun _ h => h
+  | walk =>
+    unfold runOp
+    refine Triple.bind rootStat_inv fun _ => ?_
+    refine Triple.bind (walkFrom_inv _ _) fun _ => ?_
+    exact Triple.pure' fun _ h => h
+
+/-- the invariant holds along every history -/
+theorem run_inv (ops : List Op) : ∀ s, INV s → INV (run s ops) := by
+  induction ops with
+  | nil => exact fun _ h => h
+  | cons op rest ih =>
+    intro s hs
+    exact ih _ ((runOp_inv op).st hs)
+
+/-! ## instance 1: mutating calls only ever reach the upper layer -/
+
+/-- real inodes flagged `in_upper_layer` belong to layer 0; logged calls are on layer 0; the
+    lower layers are the ones the history started with -/
+def upperSpec (L0 : List Layer) : InvSpec where
+  φ r := r.inUpper = true → r.layer = 0
+  ψ c := c.layer = 0
+  D d := d.lowers = L0
+  child r c h hl hu := by intro hc; rw [hl]; exact h (hu ▸ hc)
+  call r _ h hu := h hu
+  disk r L d h hu hd := by
+    have : r.layer = 0 := h hu
+    rw [this]; simpa [Disk.setLayer] using hd
+
+/-- the state right after `import` -/
+def importSt0 (d : Disk) : St :=
+  { disk := d, log := [], nextId := 1000000,
+    mem := fun q => if q = [] then
+      some { reals := d.indices.map (rootReal d), whiteout := false, loaded := false, kids := [] } else none }
+
+theorem importFs_eq (d : Disk) : importFs d = (loadDirectory [] (importSt0 d)).st := rfl
+
+theorem import_inv (J : InvSpec) (d : Disk) (hφ : ∀ i ∈ d.indices, J.φ (rootReal d i)) (hD : J.D d) :
+    GInv J (importFs d) := by
+  rw [importFs_eq]
+  refine (loadDirectory_inv []).st ⟨?_, ?_, hD⟩
+  · intro p m hm
+    simp only [importSt0] at hm
+    split at hm
+    · cases hm
+      intro r hr
+      simp only [List.mem_map] at hr
+      obtain ⟨i, hi, rfl⟩ := hr
+      exact hφ i hi
+    · cases hm
+  · intro c hc
+    simp [importSt0] at hc
+
+theorem import_upper (d : Disk) : GInv (upperSpec d.lowers) (importFs d) := by
+  refine import_inv _ d (fun i _ => ?_) rfl
+  intro h
+  simpa [rootReal] using h
+
+/-! ## instance 2: no upper layer -/
+
+/-- without an upper layer no real inode is flagged `in_upper_layer`, nothing is ever logged,
+    the disk is the one the history started with -/
+def noUpperSpec (d0 : Disk) : InvSpec where
+  φ r := r.inUpper = false
+  ψ _ := False
+  D d := d = d0
+  child r c h _ hu := by rw [hu]; exact h
+  call r _ h hu := by rw [h] at hu; cases hu
+  disk r L d h hu _ := by rw [h] at hu; cases hu
+
+theorem mem_indices_pos {d : Disk} (hd : d.upper = none) : ∀ i ∈ d.indices, i ≠ 0 := by
+  intro i hi
+  simp [Disk.indices, hd] at hi
+  obtain ⟨a, _, rfl⟩ := hi
+  omega
+
+theorem import_noUpper (d : Disk) (hd : d.upper = none) : GInv (noUpperSpec d) (importFs d) := by
+  refine import_inv _ d (fun i hi => ?_) rfl
+  have := mem_indices_pos hd i hi
+  show (rootReal d i).inUpper = false
+  simp [rootReal, this]
+
+/-- nothing is in the upper layer when there is none -/
+theorem noUpper_not_upAt {d0 : Disk} {s : St} {p : Path} (h : GInv (noUpperSpec d0) s) (hu : UpAt p s) : False := by
+  obtain ⟨m, hm, hup⟩ := hu
+  have hok := h.1 p m hm
+  unfold MNode.inUpper at hup
+  split at hup
+  · rename_i r rest hr
+    have : r.inUpper = false := hok r (by simp [hr])
+    rw [this] at hup; cases hup
+  · cases hup
 
 end Fbr.Ovl
